@@ -257,3 +257,36 @@ Proof.
   cbn in H1, H2. apply andb_prop in H2. destruct H2 as [E H2]. apply Z.eqb_eq in E. f_equal; [exact E|].
   apply IH; [lia | exact H2].
 Qed.
+
+(* ---------- C14: linearised premultiplied pixels stay premultiplied ---------- *)
+(* margin certificate per decode-table entry r: even after the four float32 roundings of
+   (t / alpha) * alpha * 65535 + 0.5 (relative perturbation at most 1 + 2^-22 in total, absolute
+   2^-9 for the final addition), the quantised channel cannot exceed r, hence not alpha >= r *)
+Definition premul_margin (r bits : Z) : Prop :=
+  (65535 * f32_val bits * (1 + / 4194304) + / 2 + / 512 < IZR r + 1)%R.
+Definition check_premul_entry (r bits : Z) : bool :=
+  f32_ok bits &&
+  let t := f32_dy bits in
+  (* 65535 * t * (2^22 + 1) * 2^-22 + (2^8 + 1) * 2^-9  <  r + 1, all exact *)
+  lt_d (add_d (fst t * 65535 * 4194305, snd t + (-22)) (257, -9)) (int_d (r + 1)).
+Lemma check_premul_entry_sound r bits : check_premul_entry r bits = true -> premul_margin r bits.
+Proof.
+  unfold check_premul_entry. intros H. apply andb_prop in H. destruct H as [_ H]. cbv zeta in H.
+  apply lt_d_sound in H. rewrite val_add, val_int in H. unfold premul_margin, f32_val.
+  destruct (f32_dy bits) as [m e]. cbn [fst snd] in H. unfold val, F2R in *. cbn [Fnum Fexp fst snd] in *.
+  rewrite !mult_IZR in H. rewrite bpow_plus in H. rewrite plus_IZR in H.
+  replace (bpow radix2 (-22)) with (/ 4194304)%R in H by (simpl; lra).
+  replace (bpow radix2 (-9)) with (/ 512)%R in H by (simpl; lra).
+  lra.
+Qed.
+Definition check_premul_chunk (start : Z) (l : list Z) : bool := check_idx check_premul_entry start l.
+Theorem check_premul_chunk_sound start l : check_premul_chunk start l = true -> AllIdx premul_margin start l.
+Proof. apply check_idx_sound. exact check_premul_entry_sound. Qed.
+Theorem premul_table_ok cs :
+  contiguous 0 cs = true ->
+  Forall (fun sc => check_premul_chunk (fst sc) (snd sc) = true) cs ->
+  AllIdx premul_margin 0 (concat (map snd cs)).
+Proof.
+  intros Hc Hf. apply chunks_ok; [exact Hc|].
+  eapply Forall_impl; [|exact Hf]. intros [s ch] H. apply check_premul_chunk_sound; assumption.
+Qed.
